@@ -325,7 +325,7 @@ func (c *child) exec1(sp Spec) (oc *Outcome, crashed bool, why string) {
 			return nil, true, "bad outcome: " + err.Error()
 		}
 		return oc, false, ""
-	case <-time.After(hangAfter + 40*time.Second):
+	case <-time.After(time.Duration(sp.hangAfterMs())*time.Millisecond + 60*time.Second):
 		return nil, true, "child did not answer"
 	}
 }
@@ -531,11 +531,111 @@ func specLabel(sp Spec) string {
 	return fmt.Sprintf("%s/%s", sp.Target, p0)
 }
 
+// timingKey: clauses that depend on wall-clock bounds or on what is (still) running at some instant.  They
+// are reported only after the exact scenario, re-run ALONE (no parallel children) two more times, failed the
+// same clause every time — or when what was left at the end persisted for 8 more seconds (not noise).
+func timingKey(key string) bool {
+	for _, p := range []string{"life-close-latency", "life-close-hang", "life-goroutine-after-close", "life-goroutine-blocked-at-close-return",
+		"life-goroutine-leak", "life-fd-leak", "life-socket-after-close", "life-stream-reader-not-closed", "life-session-not-closed",
+		"life-no-packets-after-redundant-play", "life-stream-multicast-left"} {
+		if strings.HasPrefix(key, p) {
+			return true
+		}
+	}
+	return false
+}
+
+type pendingFinding struct {
+	sp         Spec
+	label      string
+	fs         []finding
+	persistent bool
+	trace      string
+}
+
+const confirmRuns = 2
+
+// confirm re-runs the scenario alone and keeps the findings that failed again every time.
+func confirm(ctx *corr.Ctx, p pendingFinding) {
+	again := make([]map[string]bool, 0, confirmRuns)
+	c, err := startChild()
+	if err != nil {
+		ctx.Note("confirmation child: " + err.Error())
+		return
+	}
+	defer func() {
+		if c != nil {
+			c.kill()
+		}
+	}()
+	for i := 0; i < confirmRuns; i++ {
+		oc, crashed, why := c.exec1(p.sp)
+		keys := map[string]bool{}
+		if crashed {
+			ctx.Dist("crash")
+			ctx.Violate(corr.Violation{Property: "C13", Clause: "Close does not crash the process", Key: "life-crash:" + p.sp.Target,
+				Where: "confirmation run of scenario " + p.label, Input: p.sp, Detail: why})
+			c.kill()
+			if c, err = startChild(); err != nil {
+				c = nil
+				return
+			}
+		} else {
+			fs := evalOutcome(oc)
+			if !oc.Hang {
+				var tf []finding
+				if p.sp.Target == "client" {
+					tf = evalClientTrace(oc.Events)
+				} else {
+					tf = evalServerTrace(oc.Events)
+				}
+				for _, f := range tf { // a trace clause seen in a confirmation run is a violation by itself
+					ctx.Violate(corr.Violation{Property: "C13", Clause: f.clause, Key: f.key, Where: "confirmation run of scenario " + p.label, Input: p.sp, Detail: f.detail})
+				}
+			}
+			for _, f := range fs {
+				keys[f.key] = true
+			}
+			if oc.Hang {
+				c.kill()
+				if c, err = startChild(); err != nil {
+					c = nil
+					return
+				}
+			}
+		}
+		again = append(again, keys)
+	}
+	for _, f := range p.fs {
+		all := len(again) == confirmRuns
+		for _, k := range again {
+			if !k[f.key] {
+				all = false
+			}
+		}
+		leak := strings.HasPrefix(f.key, "life-goroutine-leak") || strings.HasPrefix(f.key, "life-fd-leak")
+		switch {
+		case all:
+			ctx.Dist("violation:" + f.key)
+			ctx.Violate(corr.Violation{Property: "C13", Clause: f.clause, Key: f.key, Where: "scenario " + p.label + " (failed again in 2 of 2 runs alone)",
+				Input: p.sp, Detail: f.detail + "\ntrace: " + p.trace})
+		case leak && p.persistent:
+			ctx.Dist("violation:" + f.key)
+			ctx.Violate(corr.Violation{Property: "C13", Clause: f.clause, Key: f.key, Where: "scenario " + p.label + " (still there 8 s later; not reproduced in the runs alone)",
+				Input: p.sp, Detail: f.detail + "\ntrace: " + p.trace})
+		default:
+			ctx.Dist("unconfirmed:" + f.key)
+			b, _ := json.Marshal(p.sp)
+			ctx.Note("not reproduced alone (scheduling noise?): " + f.key + " — " + tail(f.detail, 200) + " — " + string(b))
+		}
+	}
+}
+
 func Run(ctx *corr.Ctx) {
 	ctx.Rule("real Server/ServerStream/Client closed at every protocol step (between steps and during the next one) and at random moments, " +
 		"concurrently with packet writes, joining readers, peer teardown and peers that stopped reading; per scenario (child process): " +
-		"Close latency <= 2*WriteTimeout+3s, no goroutine started by the closed object left, none of its sockets open, no library goroutine / descriptor left at the end, " +
-		"callbacks balanced and ordered; the callback trace must be accepted by the Lean monitor; mutated traces must be rejected; random runs of the Lean model must be accepted and terminate")
+		"Close latency <= 2*WriteTimeout+3s (+8s with a full-speed writer or GOMAXPROCS=1, +20s with both), no goroutine started by the closed object left, none of its sockets open, no library goroutine / descriptor left at the end, " +
+		"callbacks balanced and ordered; latency / leftover clauses are reported only when the scenario re-run alone fails them 2 of 2 times (or the leftover persists 8 s); the callback trace must be accepted by the Lean monitor; mutated traces must be rejected; random runs of the Lean model must be accepted and terminate")
 	if ctx.Replay != nil {
 		replay(ctx)
 		return
@@ -568,6 +668,7 @@ func Run(ctx *corr.Ctx) {
 	budget := time.Duration(ctx.N(36, 600)) * time.Second
 	par := ctx.N(5, 6)
 	var cleanServer [][]string
+	var pending []pendingFinding
 	handle := func(sp Spec, oc *Outcome, crash string) {
 		label := specLabel(sp)
 		if crash != "" {
@@ -639,10 +740,19 @@ func Run(ctx *corr.Ctx) {
 			}
 		}
 		fs = append(fs, tf...)
+		var timing []finding
 		for _, f := range fs {
+			if timingKey(f.key) {
+				timing = append(timing, f)
+				continue
+			}
 			ctx.Dist("violation:" + f.key)
 			ctx.Violate(corr.Violation{Property: "C13", Clause: f.clause, Key: f.key, Where: "scenario " + label,
 				Input: sp, Detail: f.detail + "\ntrace: " + tail(strings.Join(oc.Events, "; "), 3000)})
+		}
+		if len(timing) > 0 {
+			ctx.Dist("to-confirm")
+			pending = append(pending, pendingFinding{sp: sp, label: label, fs: timing, persistent: oc.Persistent, trace: tail(strings.Join(oc.Events, "; "), 3000)})
 		}
 		nEv := 0
 		for _, e := range oc.Events {
@@ -669,6 +779,14 @@ func Run(ctx *corr.Ctx) {
 		}
 	}
 	ran := runAll(specs, par, start.Add(budget), handle)
+	// timing / leftover clauses: confirm alone (all children are gone now), at most 12 scenarios
+	for i, p := range pending {
+		if i >= 12 {
+			ctx.Note(fmt.Sprintf("%d further scenarios with timing findings were not re-run", len(pending)-12))
+			break
+		}
+		confirm(ctx, p)
+	}
 	ctx.DistN("scenarios-run", ran)
 	ctx.DistN("corpus-scenarios", nCorpus)
 
@@ -731,24 +849,43 @@ func loadCorpus() []Spec {
 	return out
 }
 
-// replay re-runs one scenario (the `input` of a violation) a number of times: schedules are sampled.
+// replay re-runs one scenario (the `input` of a violation) alone, 20 times: trace clauses and crashes are
+// reported when seen once, timing / leftover clauses when they fail in every run.
 func replay(ctx *corr.Ctx) {
 	var sp Spec
 	if err := json.Unmarshal(ctx.Replay, &sp); err != nil || sp.Target == "" {
 		ctx.Note("replay input is not a scenario")
 		return
 	}
-	var specs []Spec
-	for i := 0; i < 60; i++ {
+	const n = 20
+	counts := map[string]int{}
+	first := map[string]finding{}
+	var lat []string
+	c, err := startChild()
+	if err != nil {
+		ctx.Note(err.Error())
+		return
+	}
+	defer func() {
+		if c != nil {
+			c.kill()
+		}
+	}()
+	for i := 0; i < n; i++ {
 		s := sp
 		s.ID = i
-		specs = append(specs, s)
-	}
-	handle := func(sp Spec, oc *Outcome, crash string) {
-		if crash != "" {
-			ctx.Violate(corr.Violation{Property: "C13", Clause: "Close does not crash the process", Key: "life-crash:" + sp.Target, Input: sp, Detail: crash})
-			return
+		oc, crashed, why := c.exec1(s)
+		ctx.CountOnly(fmt.Sprintf("replay-%d", i), true)
+		if crashed {
+			ctx.Violate(corr.Violation{Property: "C13", Clause: "Close does not crash the process", Key: "life-crash:" + sp.Target, Input: sp, Detail: why})
+			c.kill()
+			if c, err = startChild(); err != nil {
+				c = nil
+				return
+			}
+			continue
 		}
+		lat = append(lat, fmt.Sprintf("%.0f", oc.CloseMs))
 		fs := evalOutcome(oc)
 		if !oc.Hang {
 			if sp.Target == "client" {
@@ -758,9 +895,30 @@ func replay(ctx *corr.Ctx) {
 			}
 		}
 		for _, f := range fs {
-			ctx.Violate(corr.Violation{Property: "C13", Clause: f.clause, Key: f.key, Input: sp, Detail: f.detail})
+			if !timingKey(f.key) {
+				ctx.Violate(corr.Violation{Property: "C13", Clause: f.clause, Key: f.key, Input: sp, Detail: f.detail})
+				continue
+			}
+			counts[f.key]++
+			if _, ok := first[f.key]; !ok {
+				first[f.key] = f
+			}
 		}
-		ctx.CountOnly(fmt.Sprintf("replay-%d", sp.ID), true)
+		if oc.Hang {
+			c.kill()
+			if c, err = startChild(); err != nil {
+				c = nil
+				return
+			}
+		}
 	}
-	runAll(specs, 4, time.Now().Add(5*time.Minute), handle)
+	ctx.Note("Close latencies (ms): " + strings.Join(lat, " "))
+	for k, cnt := range counts {
+		if cnt == n {
+			f := first[k]
+			ctx.Violate(corr.Violation{Property: "C13", Clause: f.clause, Key: f.key, Input: sp, Detail: f.detail + fmt.Sprintf("\n(failed in %d of %d runs alone)", cnt, n)})
+		} else {
+			ctx.Note(fmt.Sprintf("%s failed in %d of %d runs alone: not reported", k, cnt, n))
+		}
+	}
 }
